@@ -1,5 +1,6 @@
 import Regatta.Proofs.Wire
 import Regatta.Proofs.WireMsg
+import Regatta.Proofs.WireTree
 /-
   C18 — Wire codecs and stream framing are lossless for every message and chunking.
 
@@ -105,6 +106,28 @@ example :
   refine ⟨fun h => ?_, fun h => ?_⟩
   · have := c18_command_injective _ _ h; cases this
   · have := c18_command_injective _ _ h; cases this
+
+/-- **EVERY message of EVERY message type survives encode / decode**: a message value is the tree
+of its populated fields (varint, 64-bit, 32-bit, length-delimited scalars; embedded messages — one
+per element of a repeated field, oneof arm or map entry), a schema says which field numbers are
+embedded messages; for every schema, every tree that conforms to it and every nesting budget above
+the tree's depth, decoding the encoding gives exactly the tree back.  The schemas of all 51 message
+types of the API (incl. `google.protobuf.Struct` inside the status response) are read from the
+compiled descriptors on every run (mode `gmsg`), where this decoder and encoder are compared with
+the registered codec on random values of every type -/
+theorem c18_any_message (s : Schema) (ts : List Tree) (fuel : Nat) (hc : Tree.conformsList s ts = true)
+    (hd : Tree.depthList ts ≤ fuel) : Tree.decode (fuel + 1) s (Tree.encList ts) = some ts :=
+  Tree.decode_enc s ts fuel hc hd
+
+/-- non-vacuity: a schema with an embedded message at field 7 that itself embeds one at field 1; a
+tree with all four wire types and two levels of nesting conforms and round-trips -/
+example :
+    let s : Schema := .mk [(7, .mk [(1, .mk [])])]
+    let t : List Tree := [.varint 2 300, .bytes 1 [1, 2, 3], .fixed64 9 [1, 2, 3, 4, 5, 6, 7, 8],
+      .sub 7 [.sub 1 [.varint 3 1], .sub 1 [], .fixed32 4 [9, 9, 9, 9]], .bytes 8 []]
+    Tree.conformsList s t = true ∧ Tree.depthList t = 2 ∧ Tree.decode 3 s (Tree.encList t) = some t := by
+  refine ⟨by decide, by decide, ?_⟩
+  exact Tree.decode_enc _ _ 2 (by decide) (by decide)
 
 /-- any sequence of small-numbered fields decodes to itself (the building block of the message
 decoders) -/
